@@ -222,10 +222,10 @@ class SetUpdateClause(ContainerUpdateClause):
         if self._assignments is not None:
             qs += ['"{0}" = %({1})s'.format(self.field, ctx_id)]
             ctx_id += 1
-        if self._additions is not None:
+        if self._additions:
             qs += ['"{0}" = "{0}" + %({1})s'.format(self.field, ctx_id)]
             ctx_id += 1
-        if self._removals is not None:
+        if self._removals:
             qs += ['"{0}" = "{0}" - %({1})s'.format(self.field, ctx_id)]
 
         return ', '.join(qs)
@@ -268,10 +268,10 @@ class SetUpdateClause(ContainerUpdateClause):
         if self._assignments is not None:
             ctx[str(ctx_id)] = self._assignments
             ctx_id += 1
-        if self._additions is not None:
+        if self._additions:
             ctx[str(ctx_id)] = self._additions
             ctx_id += 1
-        if self._removals is not None:
+        if self._removals:
             ctx[str(ctx_id)] = self._removals
 
 
@@ -292,11 +292,11 @@ class ListUpdateClause(ContainerUpdateClause):
             qs += ['"{0}" = %({1})s'.format(self.field, ctx_id)]
             ctx_id += 1
 
-        if self._prepend is not None:
+        if self._prepend:
             qs += ['"{0}" = %({1})s + "{0}"'.format(self.field, ctx_id)]
             ctx_id += 1
 
-        if self._append is not None:
+        if self._append:
             qs += ['"{0}" = "{0}" + %({1})s'.format(self.field, ctx_id)]
 
         return ', '.join(qs)
@@ -313,10 +313,10 @@ class ListUpdateClause(ContainerUpdateClause):
         if self._assignments is not None:
             ctx[str(ctx_id)] = self._assignments
             ctx_id += 1
-        if self._prepend is not None:
+        if self._prepend:
             ctx[str(ctx_id)] = self._prepend
             ctx_id += 1
-        if self._append is not None:
+        if self._append:
             ctx[str(ctx_id)] = self._append
 
     def _analyze(self):
@@ -397,7 +397,7 @@ class MapUpdateClause(ContainerUpdateClause):
         ctx_id = self.context_id
         if self.is_assignment:
             ctx[str(ctx_id)] = {}
-        elif self._removals is not None:
+        elif self._removals:
             ctx[str(ctx_id)] = self._removals
         else:
             for key in self._updates or []:
@@ -418,7 +418,7 @@ class MapUpdateClause(ContainerUpdateClause):
         ctx_id = self.context_id
         if self.is_assignment:
             qs += ['"{0}" = %({1})s'.format(self.field, ctx_id)]
-        elif self._removals is not None:
+        elif self._removals:
             qs += ['"{0}" = "{0}" - %({1})s'.format(self.field, ctx_id)]
             ctx_id += 1
         else:
